@@ -4,15 +4,15 @@ import json, os, re
 READY = True
 
 META = {
-    "technique": "Lean 4 proof (model of loader::safe_join built from the segment rules extracted from the source, PathBuf::push incl. its replace-on-absolute branch, Path::components, lexical normalisation, abstract directory tree, path_loader as a function of (configured base, file system at load time), the name-keyed template store over arbitrary file-system histories) + exhaustive correspondence of the real safe_join with the model over the quantifier's segment alphabet + canary oracle on the real path_loader over a scratch tree, through 10 entry points, Environment::templates, AutoReloader, and a loader-lifecycle axis",
+    "technique": "Lean 4 proof (model of loader::safe_join built from the segment rules extracted from the source; PathBuf::push and Path::components with the PLATFORM as a parameter — separator set, main separator, drive prefixes: Unix and Windows instances, push's replace-on-absolute/prefix, keep-only-the-prefix-on-rooted and bare-drive branches; lexical normalisation; abstract directory tree; path_loader as a function of (configured base, file system at load time); candidate-list loaders; the name-keyed template store over arbitrary file-system histories) + exhaustive correspondence of the real safe_join with the Unix instance over the quantifier's segment alphabet + the Windows instance against CPython's ntpath + canary oracle on the real path_loader over a scratch tree through 13 entry points, Environment::templates, AutoReloader, a loader-lifecycle axis (incl. the kind of the base: directory, regular file, symlink, missing) + a syscall-level oracle (strace) over every entry point",
     "category": "proof",
-    "text": "Kernel-checked theorems: whenever the model of safe_join answers a path, that path has the base as literal prefix, its components are the base's components followed by the name's non-empty segments, none of which is '.', '..', hidden or contains '/' or '\\'; hence lexical normalisation keeps the base as prefix and, on every directory tree without symlinks, the path resolves to the base directory or beneath it; any '.', '..', hidden or backslash segment yields None; the absolute-argument branch of PathBuf::push is unreachable. The loader keeps the configured base verbatim whatever the disk looks like at construction (loader_base_is_configured); every path it hands to the file system and every content it returns is confined to the configured base in the file system of the load (loader_reads_confined, loader_found_confined); with the name-keyed store in front, for EVERY history of file systems (base created later, removed, recreated, working directory changed, clear_templates) every answer and everything Environment::templates lists is what some snapshot held at safe_join(configured base, name) (loader_history_confined, loader_history_confined_after_clear); without a readable file under the base the only answers are missing/unreadable. Ties: the segment rules of the model are regenerated from loader.rs; path_loader's base binding, its fs:: calls and the engine's template-fetching call sites are regenerated and checked by theorems; the real safe_join is compared with the model byte for byte on every name over the segment alphabet for 13 spellings of the base plus noise; the real path_loader is compared with (model, disk answer at the joined path, store) through get_template, include, import, from-import, extends, include lists, the documented join callback, State::get_template from a host function, includes in macros and in loader-backed templates, Environment::templates and AutoReloader, on a static tree and on 10 lifecycle scenarios x 7 spellings of the base; a syscall-level oracle runs the loader under strace and requires that, between the sentinel probes bracketing a request, the only path handed to the kernel is the one safe_join designates (opened once) and that nothing outside the base is opened; every canary outside the base has decorated namesakes (.j2/.html/.txt/.jinja/.tmpl/…, <name>/index.html, other case, blanks, other Unicode normal forms) and the undecorated stems are requested by absolute and relative spellings (the scratch tree sits at a path without dot segments so that absolute canary names get past the hidden-segment rule); the oracle requires every returned content to carry the marker of a file whose canonical path is beneath the canonical configured base (never a canary, nothing at all while the base has not existed).",
+    "text": "Kernel-checked theorems: (1) what is pushed is what was checked (checked_segments_are_pushed_components): on every platform whose separators are the split character or rejected by the extracted filter rules — proved for the Unix and the Windows separator sets — whenever safe_join answers a path, the filter looked at every piece of name.split('/'), the arguments of PathBuf::push are exactly those pieces, and the components of the result (the result split on EVERY separator of the platform) are the base's components followed by the non-empty pieces, one plain name each; drive prefix, root and literal text of the base are kept. Unix: no hypothesis left (unix_checked_are_pushed, safe_join_confined_unix; the Unix instance is the model compared with the real code, unix_instance_is_checked_model). Windows: holds for names without a drive-prefixed segment (safe_join_confined_windows_partial); a segment `X:…` passes the filter and push replaces the base (windows_drive_segment_replaces_base, C17_windows_counterexample — recorded as a known finding, Windows only). (2) Unix detail as before: the path has the base as literal prefix, components = base's ++ name's non-empty segments, none of which is '.', '..', hidden or contains '/' or '\\'; lexical normalisation keeps the base as prefix; on every directory tree without symlinks the path resolves to the base directory or beneath it; any '.', '..', hidden or backslash segment yields None; push's absolute-argument branch is unreachable. (3) The loader keeps the configured base verbatim (loader_base_is_configured); every path it hands to the file system and every content it returns is confined to the configured base in the file system of the load (loader_reads_confined, loader_found_confined); any loader that tries candidate NAMES through safe_join (suffix/index/alias fallbacks done right) stays confined (candidate_loader_found_confined, candidate_loader_reads_confined; path_loader is the single-candidate instance); with the name-keyed store in front, for EVERY history of file systems every answer and everything Environment::templates lists is what some snapshot held at safe_join(configured base, name) (loader_history_confined, …_after_clear). Ties: the segment rules are regenerated from loader.rs; safe_join's loop SHAPE is regenerated and checked (one split on the extracted separator, one filter whose atoms all look at the loop variable, one push of that same variable, nothing else: safe_join_loop_shape); path_loader's base binding, its fs:: calls, every file-system-vocabulary call and the mentions of path/base/name are regenerated (loader_model_matches_source); every function of minijinja, minijinja-contrib and minijinja-autoreload that mentions the file system or builds a path is regenerated and must be one of the modelled ones (path_producers_as_modelled); the engine's template-fetching call sites are regenerated (entry_sites_covered). Correspondence: real safe_join vs model byte for byte on every name over the segment alphabet for 13 spellings of the base plus targeted, disguised, shaped and noise names; real path_loader vs (model, disk answer at the joined path, store) through get_template, include, import, from-import, extends, include lists (name first / name after a missing choice), ignore-missing include, the documented join callback, State::get_template from a host function and from a host filter, includes in macros and in loader-backed templates, Environment::templates and AutoReloader, on a static tree and on 12 lifecycle scenarios x 10 spellings of the base; Lean Windows model vs CPython ntpath.join. Oracles: every returned content carries the marker of a file whose canonical path is beneath the canonical configured base (never a canary; nothing at all while the configured base is not a directory); under strace, between the sentinel probes bracketing a request — through EVERY one of the 13 routes in rotation plus the bare loader closure — the only path handed to the kernel is the one safe_join designates (opened once; twice for a twice-listed missing name) and nothing outside the base is opened. Names: the alphabet product; every canary by absolute, relative, rooted, climbing spelling; DISGUISED escaping spellings (each escaping kernel whose target canary exists x pads/NUL/zero-width/format characters before, after, inside the dot-dot; percent-, double-percent-, entity- and look-alike-encoded dots and separators incl. NFKC-equivalents; tokens a clean-up may cut off: drive, scheme, tilde; prefixes and suffixes) so that a check/use mismatch of any such family yields a canary; SHAPED spellings (long by repeated separators / by a/../ round trips, 6…260 leading empty segments, 10 segments deep, beyond NAME_MAX and PATH_MAX); Windows device names, drive, UNC, verbatim and device-namespace prefixes, alternate data streams as data; decorated namesakes of every canary.",
     "design_ref": "DESIGN.md §3 C17",
-    "level_note": "Trusted: Lean kernel; hand transcription of the loop of loader::safe_join (the rules themselves are extracted) and of std's Unix PathBuf::push / Path::components into MJ/Model/Path.lean (validated byte-for-byte against the real functions, the std ones also outside the region safe_join reaches); the step from 'components are plain names' to 'the OS resolves beneath the base' is proved on an abstract tree without symlinks (the property excludes symlinks) and validated on a real tree; Loader.load / Env.get are three-line transcriptions of path_loader's closure and LoaderStore::get, tied by the extracted shape table and validated on every stream; State::get_template/join_template_path are validated by the oracle streams (the Lean statement get_template_passes_name is about a three-line model; the call sites are tied by entry_sites_covered). Unix only: on Windows other separators/prefixes exist. minijinja-cli has its own loader (no safe_join, reads arbitrary paths by design) and minijinja-embed does not touch the disk at run time: both are outside this property.",
+    "level_note": "Trusted: Lean kernel; hand transcription of std's PathBuf::_push / Path::components / parse_drive into MJ/Model/Path.lean (Unix, validated byte-for-byte against the real functions, also outside the region safe_join reaches) and MJ/Model/PathPlat.lean (platform-generic; its Unix instance is PROVED equal to the validated one, its Windows instance is validated against CPython's ntpath.join on the region where the two libraries define the same function — not against a Windows build of std, which cannot run here; the verbatim-prefix branch of push is not modelled, a Windows base is assumed not to be verbatim); the loop of safe_join is a transcription whose rules AND shape are extracted; the step from 'components are plain names' to 'the OS resolves beneath the base' is proved on an abstract tree without symlinks (the property excludes symlinks) and validated on a real tree and at syscall level; Loader.load / Env.get are three-line transcriptions of path_loader's closure and LoaderStore::get, tied by the extracted shape table and validated on every stream; State::get_template/join_template_path are validated by the oracle streams (get_template_passes_name is about a three-line model; the call sites are tied by entry_sites_covered). The real code is exercised on Linux only. minijinja-cli has its own loader (no safe_join, reads arbitrary paths by design) and minijinja-embed reads the disk at build time only: both are outside this property.",
 }
 
 PARENT_NAME = "a/a/drv"      # name of the including template in the join-callback stream
-FORMS = ["get", "include", "import", "from", "extends", "inclist", "joincb", "fn", "macro", "nested"]
+FORMS = ["get", "include", "import", "from", "extends", "inclist", "joincb", "fn", "macro", "nested", "incim", "inclist2", "filter"]
 LC_FORMS = FORMS + ["ar", "arr"]
 
 _esc = re.compile(rb"%([0-9a-f]{2})")
@@ -80,6 +80,97 @@ def normpath_agrees(path):
     return os.path.normpath(q) == lex_str(*lex(path))
 
 
+# ---- the Windows witness: CPython's ntpath, an independent implementation of Windows path joining
+def nt_alpha_drive(s):
+    return len(s) >= 2 and s[1] == ":" and s[0].isascii() and s[0].isalpha()
+
+
+def nt_comparable(p, seg):
+    """the region on which std's Windows `PathBuf::push` and CPython's `ntpath.join` are the same
+    function: no UNC/device/verbatim prefix on either side, `X:` only with an ASCII letter (CPython
+    takes any character for a drive), not the same drive in front of both (CPython then joins, std
+    replaces)"""
+    for t in (p, seg):
+        if len(t) >= 2 and t[0] in "\\/" and t[1] in "\\/":
+            return False
+        if len(t) >= 2 and t[1] == ":" and not nt_alpha_drive(t):
+            return False
+    if nt_alpha_drive(p) and nt_alpha_drive(seg) and p[0].lower() == seg[0].lower():
+        return False
+    return True
+
+
+def nt_safe_join(base, name):
+    """(result | None, comparable): the loop of safe_join with ntpath.join as push"""
+    import ntpath
+    rv, ok = base, True
+    for seg in name.split("/"):
+        if seg.startswith(".") or "\\" in seg:
+            return None, ok
+        ok = ok and nt_comparable(rv, seg)
+        rv = ntpath.join(rv, seg)
+    return rv, ok
+
+
+def nt_comps(p):
+    body = p[2:] if nt_alpha_drive(p) else p
+    return [c for c in re.split(r"[\\/]", body) if c not in ("", ".")]
+
+
+WIN_BASES = ["templates", "C:\\srv\\t", "C:\\srv\\t\\", "C:", "C:t", "c:/srv/t", "", ".", "..\\t", "\\srv\\t", "t\\", "D:\\"]
+
+
+def check_windows_model(r, names):
+    """the WINDOWS instance of the platform-generic Lean model (`safeJoinTr windows`) against the
+    ntpath witness, and the confinement oracle on what both say.  No Windows build of the real code
+    exists on this machine: this stream ties the Lean model of std's Windows `push` to an independent
+    implementation and evaluates the property on it."""
+    cases = [(WIN_BASES[i % len(WIN_BASES)], n) for i, n in enumerate(names)]
+    # both drive forms for names that start with one
+    cases += [(b, n) for b in ("templates", "C:\\srv\\t") for n in names if nt_alpha_drive(n)][:4000]
+    lines = [f"wsj {pct_py(b)} {pct_py(n)}" for b, n in cases]
+    model = r.driver("drive_c17", "\n".join(lines) + "\n")
+    if model is None or len(model) != len(lines) or any(m == "bad-case" for m in model):
+        r.broken.append("model driver did not answer the Windows-model cases")
+        return
+    for (b, n), case, m in zip(cases, lines, model):
+        want, ok = nt_safe_join(b, n)
+        r.hist["stream"]["wsj"] += 1
+        if not ok:
+            r.hist["windows-model"]["outside the region where ntpath and std agree"] += 1
+            continue
+        r.count(case, nontrivial_name(n))
+        mf = m.split(" ")
+        got = None if m == "none" else unpct(mf[1])
+        if got != want:
+            r.model_disagreement(case, f"ntpath witness: {want!r}", f"Lean windows model: {got!r}")
+            continue
+        if got is None:
+            r.hist["windows-model"]["none"] += 1
+            continue
+        mc = [unpct(x) for x in mf[3].split(",")] if mf[3] else []
+        if mc != nt_comps(got):
+            r.model_disagreement(case, f"ntpath witness components: {nt_comps(got)}", f"Lean windows model: {mc}")
+        # the property on the Windows model: same drive, the base's components first, no `..` after them
+        bc = nt_comps(b)
+        same_drive = (got[:2].lower() if nt_alpha_drive(got) else "") == (b[:2].lower() if nt_alpha_drive(b) else "")
+        confined = same_drive and mc[:len(bc)] == bc and ".." not in mc[len(bc):] and got.startswith(b)
+        if confined:
+            r.hist["windows-model"]["confined"] += 1
+        elif any(nt_alpha_drive(seg) for seg in n.split("/")):
+            r.hist["windows-model"]["drive segment replaces the base"] += 1
+            r.oracle_failure(case, f"on Windows (Lean model of std's push and the ntpath witness agree) safe_join({b!r}, {n!r}) = {got!r}: "
+                             "a segment with a drive prefix replaces the base", "windows-model:drive-prefix-replaces-base")
+        else:
+            r.oracle_failure(case, f"on Windows (Lean model and ntpath witness agree) safe_join({b!r}, {n!r}) = {got!r} is not confined to the base",
+                             "windows-model:escape")
+
+
+def pct_py(s):
+    return "".join(chr(b) if 0x21 <= b <= 0x7e and b not in (0x25, 0x2c) else "%%%02x" % b
+                   for b in s.encode("utf-8", "surrogateescape"))
+
+
 def py_join_cb(name, parent):
     rv = parent.split("/")
     rv.pop()
@@ -118,6 +209,7 @@ class Ctx:
         self.lcclear = set()    # (scenario, spelling, phase): clear_templates happened before that phase
         self.got = {}           # (variant, name) -> result of the `get` form in the ld stream
         self.tl = {}            # variant -> {name: result} as listed by Environment::templates
+        self.wnames = []        # names for the Windows-model stream
 
 
 def broken(r, key, msg, cap=3):
@@ -155,6 +247,8 @@ def check_lines(r, ctx, lines, model):
         if stream == "sj":
             base, name = unpct(f[1]), unpct(f[2])
             r.count(case, nontrivial_name(name))
+            if f[1] in ("b", "/b") and len(name) < 300:
+                ctx.wnames.append(name)
             r.hist["segments"][min(name.count("/") + 1, 9)] += 1
             r.hist["base"][repr(base) if not (ctx.tree and ctx.tree in base) else repr(base.replace(ctx.tree, "<tree>"))] += 1
             r.hist["safe_join"][impl.split(" ")[0]] += 1
@@ -361,7 +455,7 @@ def check_lifecycle(r, ctx):
                         kp = mk.split(":", 1)
                         mpath = untilde(kp[1]) if len(kp) == 2 else None
                         if not roots:
-                            r.oracle_failure(rec["case"], f"{form}: the configured base {unpct(ctx.lcbase[(scn, sp)])!r} has not existed since the loader was built, yet the loader returned {mk!r} (cwd {untilde(rec['cwd'])!r})",
+                            r.oracle_failure(rec["case"], f"{form}: the configured base {unpct(ctx.lcbase[(scn, sp)])!r} has not been a directory since the loader was built, yet the loader returned {mk!r} (cwd {untilde(rec['cwd'])!r})",
                                              f"lifecycle:{form}:content-without-base")
                         elif mpath is None or not any(beneath(mpath, root) for root in roots):
                             r.oracle_failure(rec["case"], f"{form}: loader returned {mk!r}, not beneath the configured base {sorted(roots)} (cwd {untilde(rec['cwd'])!r})",
@@ -389,10 +483,22 @@ def check_lifecycle(r, ctx):
                 forms = [x for x in LC_FORMS if x not in ("joincb", "arr")]
             else:
                 forms = [kind]
-            for rec, want in zip(recs, answers):
+            inc_stored = False
+            for rec, want0 in zip(recs, answers):
+                # two forms look a helper name up first; its failure is the answer (the helper lives in
+                # the same directory as the names, so the store evolves as in the other forms)
+                inc_disk = rec.get("vi", "|").split("|", 1)[1]
+                inc_ans = "f" if (inc_stored or inc_disk not in ("", "-", "!")) else ("e" if inc_disk == "!" else "nf")
+                inc_stored = inc_stored or inc_ans == "f"
+                nope_disk = rec.get("vn", "|").split("|", 1)[1]
                 if kind == "main" and rec["phase"] != ph:
                     continue       # earlier phases were compared with their own prefix
                 for form in forms:
+                    want = want0
+                    if form == "nested" and inc_ans != "f":
+                        want = inc_ans
+                    if form == "inclist2" and nope_disk == "!":
+                        want = "e"
                     got = norm_res(rec.get(form, "missing-field"))
                     if got != want:
                         r.model_disagreement(rec["case"] + " [" + form + "]", f"loader answered {got!r}", f"model (configured base, disk at load time, store) answers {want!r}")
@@ -455,14 +561,25 @@ def check_syscalls(r, exe):
             seen[cur] += [(sysname, p) for p in paths if p != ""]
     if len(seen) != len(reqs):
         r.broken.append(f"syscall oracle: {len(reqs)} requests but {len(seen)} bracketed spans in the trace")
+    rel_base = bases.get("rel", "base")
     for idx, (case, hook, result) in reqs.items():
-        name = unpct(case.split(" ")[2])
+        cf = case.split(" ")
+        form, name = cf[2], unpct(cf[3])
         r.count(case, nontrivial_name(name))
         r.hist["stream"]["tr"] += 1
+        r.hist["syscall-route"][form] += 1
         got = seen.get(idx, [])
         hook_p = unpct(hook[1:]) if hook.startswith("+") else None
         want = [("openat", hook_p)] if hook_p is not None and "\0" not in hook_p else []
+        if form == "inclist" and result == "nf":
+            want = want * 2          # both choices of `[name, name]` are looked up
+        if form == "inclist2":
+            want = [("openat", py_safe_join(rel_base, "mj17-nope"))] + want   # the missing first choice
         r.hist["syscalls-per-request"][len(got)] += 1
+        if hook_p is not None and len(hook_p.encode("utf-8", "surrogateescape")) > 4000:
+            # strace prints at most PATH_MAX bytes of a path argument
+            got = [(sn, hook_p if hook_p.encode("utf-8", "surrogateescape").startswith(p.encode("utf-8", "surrogateescape")[:4000]) else p)
+                   for sn, p in got]
         for sysname, p in got:
             q = p if p.startswith("/") else cwd + "/" + p
             ab, st = lex(q)
@@ -486,21 +603,26 @@ def check_syscalls(r, exe):
 def run(r):
     r.rule = ("template names = all '/'-joins of 1..4 (quick; + 20000 sampled 5-joins) or 1..5 (thorough) segments over the alphabet "
               "{'', '.', '..', '...', 'a', '.a', 'a.', 'a..b', 'a\\\\b', '..\\\\a', NUL, '%2e%2e', U+2024 x2, U+FF0E x2, 'a' x 256, 'only_outside.txt' (a plain name that exists in every ancestor of the base, never beneath it)} "
-              "+ targeted spellings of canary paths (absolute, climbing, encoded, look-alike separators) + every canary file's base name and its "
+              "+ targeted spellings of canary paths (absolute, climbing, encoded, look-alike separators) + disguised escaping spellings (12 kernels x pads, "
+              "encodings, look-alikes, cut-off tokens, prefixes, suffixes) + shaped spellings (long, deep, leading empties, beyond NAME_MAX/PATH_MAX) + "
+              "Windows device/drive/UNC/verbatim/stream spellings as data + every canary file's base name and its "
               "name relative to each directory above it (plain, rooted, trailing/doubled slashes, below a/ and a/a/; incl. names that exist "
               "only outside the base) + decorated-namesake requests (ghost stems whose only existing spellings are decorated canaries outside "
               "the base) + random char/byte noise; syscall oracle (strace) over targeted names + all 1..2-segment (quick) / 1..3-segment "
-              "(thorough) alphabet names + noise, via the loader closure (absolute base) and {% include %} (relative base); loader forms: get_template, include, import, from-import, extends, include list, "
-              "documented join callback, State::get_template from a function, include in a macro, include in a loader-backed template, "
-              "Environment::templates; lifecycle stream: 10 scenarios (base exists / created after construction / never exists / removed and "
-              "recreated / removed / clear_templates / chdir between construction and loads x3 / empty and '.' base) x 7 spellings of the "
-              "base x 46 names x 12 forms (the 10 + AutoReloader with and without reload), canaries relative to every working directory; "
+              "(thorough) alphabet names + noise, via the loader closure (absolute base) and all 13 routes in rotation (relative base); loader forms: get_template, include, import, from-import, extends, include list, "
+              "documented join callback, State::get_template from a function, include in a macro, include in a loader-backed template "
+              "(these 10 for every name) + ignore-missing include, include list with the name as second choice, State::get_template from a filter "
+              "(for all but the alphabet product), Environment::templates; lifecycle stream: 12 scenarios (base exists / created after construction / "
+              "never exists / removed and recreated / removed / clear_templates / chdir between construction and loads x3 / empty and '.' base / "
+              "base is a regular file / file later replaced by a directory) x 10 spellings of the base (incl. trailing '..', doubled leading "
+              "slash, symlink to the base) x 46 names x 15 forms (the 13 + AutoReloader with and without reload), canaries relative to every "
+              "working directory; Windows-model stream: every name that met the disk-free base 'b' or '/b' against 12 Windows bases, Lean model vs ntpath; "
               "each name against the scratch tree's base (absolute spelling) and one of 12 other bases (4 more spellings of the "
               "scratch base, 8 disk-free bases) in rotation; a name is non-trivial when it contains '/', '.' or '\\\\'")
-    r.assumptions = ["Unix path semantics (separator '/', no prefixes); symbolic links inside the base are out of scope per the statement",
+    r.assumptions = ["the real code runs with Unix path semantics; Windows is covered by the model only (validated against CPython's ntpath, verbatim bases excluded); symbolic links inside the base are out of scope per the statement",
                      "the syscall oracle needs strace (skipped and recorded in the evidence when it is not installed)",
                      "names longer than 5 segments behave as the model predicts (proved for the model for every name and base)"]
-    r.regen_tables(needed=["C17_SAFE_JOIN_RULES", "C17_PATH_LOADER_SHAPE", "C17_LOADER_ENTRY_SITES"])
+    r.regen_tables(needed=["C17_SAFE_JOIN_RULES", "C17_PATH_LOADER_SHAPE", "C17_LOADER_ENTRY_SITES", "C17_SAFE_JOIN_LOOP", "C17_PATH_PRODUCERS"])
     r.lean_prove("MJ.Props.C17", "MJ/Audit/C17.lean", extra_targets=["drive_c17"])
     exe = r.cargo_build("c17")
     if exe is None:
@@ -524,6 +646,8 @@ def run(r):
         check_lines(r, ctx, lines, model)
         check_templates_listing(r, ctx)
         check_lifecycle(r, ctx)
+        check_windows_model(r, ctx.wnames)
+        ctx.wnames = []
         if n > 1:
             r.log(f"chunk {k + 1}/{n}: evaluations {r.evaluations}")
     check_syscalls(r, exe)
@@ -545,7 +669,8 @@ def replay(r, path):
             continue
         case = case.split(" [")[0]
         if case.startswith("tr "):
-            case = "ld " + case[3:]
+            tf = case.split(" ")
+            case = f"ld {tf[1] if tf[1] != 'direct' else 'abs'} {tf[3]}"
         rc, out, err = r.harness(exe, ["one"] + case.split(" "))
         print("engine:", out.strip())
         f = case.split(" ")
@@ -556,6 +681,11 @@ def replay(r, path):
             mcase = f"sj {bases.get(f[1], '')} {f[2]}"
             model = r.driver("drive_c17", mcase + "\n")
             print("model:", mcase, "->", model[0] if model else None)
+        elif f[0] == "wsj":
+            model = r.driver("drive_c17", case + "\n")
+            print("Lean windows model:", model[0] if model else None)
+            print("ntpath witness:", nt_safe_join(unpct(f[1]), unpct(f[2])))
+            continue
         else:
             model = r.driver("drive_c17", case + "\n")
             print("model:", model[0] if model else None)
